@@ -74,3 +74,28 @@ fn l0_local_set_start() {
         clause!(t2.row() == row && t2.free() == t.free() && t2.present(), "set_start changes only the row hint");
     }
 }
+
+// ---------------------------------------------------------------------------------------------
+// Helpers for the allocator-level obligations (private fields of `Locals` / `Local`).
+// ---------------------------------------------------------------------------------------------
+pub(crate) const SLOT_BYTES: usize = core::mem::size_of::<Local>();
+
+/// Overwrite slot `idx` of `class` with a raw word.
+pub(crate) fn set_slot(l: &Locals, class: Class, idx: usize, bits: u64) {
+    l.classes[class.0 as usize].as_ref().unwrap().as_slice(l.buffer)[idx].tree.store(LocalTree::from_bits(bits));
+}
+/// (present, tree id, free, row) of a slot.
+pub(crate) fn slot_word(l: &Locals, class: Class, idx: usize) -> (bool, usize, usize, usize) {
+    let w = l.classes[class.0 as usize].as_ref().unwrap().as_slice(l.buffer)[idx].tree.load();
+    (w.present(), w.row().as_tree().0, w.free(), w.row().0)
+}
+pub(crate) fn slot_bits(l: &Locals, class: Class, idx: usize) -> u64 {
+    l.classes[class.0 as usize].as_ref().unwrap().as_slice(l.buffer)[idx].tree.load().into_bits()
+}
+pub(crate) fn slot_wf(bits: u64) -> bool {
+    local_wf(LocalTree::from_bits(bits))
+}
+pub(crate) fn slot_fields(bits: u64) -> (bool, usize, usize) {
+    let w = LocalTree::from_bits(bits);
+    (w.present(), w.row().0, w.free())
+}
